@@ -310,6 +310,10 @@ theorem findD_step [SafePred P] (root : Val) (hroot : SafeKeys P root) (fuel : N
                           · intro ni' h'; cases h'; exact hg.ni ni hni
                           · intro ni' h' cpv' hcpv'; cases h'
                             exact hg.linked ni hni cpv' hcpv'
+                      · -- `'..'` surfaced to the root (fix C04-g)
+                        split
+                        · exact ⟨rfl, Good_mk_none hg.par hg.found⟩
+                        · exact Post_err rfl
                       · exact Post_err rfl
                       · exact Post_err rfl
             · split
